@@ -925,6 +925,11 @@ class EmptyReader(IndexReader):
     def indexed_field_names(self):
         return []
 
+    def column_reader(self, fieldname, column=None, reverse=False,
+                      translate=True):
+        column = column or self.schema[fieldname].column_type
+        return columns.EmptyColumnReader(column.default_value(reverse), 0)
+
     def all_terms(self):
         return iter([])
 
